@@ -348,7 +348,7 @@ func residual0(g *Formula, facts *Facts, mode func(a *Atom) int) (res *Formula, 
 		a    *Atom
 		mode int
 	}
-	var dem []ent  // enumerated as entry atoms
+	var dem []ent   // enumerated as entry atoms
 	var unk []*Atom // enumerated as current atoms
 	link := map[string]int{}
 	for _, a := range atoms {
